@@ -606,6 +606,18 @@ impl Sut for LWWReg<u64, u64> {
 }
 
 // ---------------------------------------------------------------- Orswot
+
+/// Op constructors that take `&self` only for their type (`Orswot::add`, `rm`, `MVReg::write`, `Map::rm`,
+/// `MerkleReg::write`) must build the op from the context alone: a client may read at one replica and hand
+/// the edit to another handle.  A third of these calls (chosen from the arguments, no generator state is
+/// consumed) go through a fresh, empty handle instead of the replica that was read.
+fn foreign(x: u64) -> bool {
+    x % 3 == 1
+}
+fn csum(c: &VClock<A>) -> u64 {
+    c.iter().map(|d| d.counter).sum::<u64>()
+}
+
 fn vm_sx<E>(r: Result<(), E>) -> String {
     match r {
         Ok(()) => "ok".into(),
@@ -621,7 +633,7 @@ fn orswot_edit(s: &Orswot<u64, A>, actor: A, a: &mut Args, t: &mut Out, pre: &st
             t.call(&format!("{}orswot.read_ctx", pre), &[sx(s), sx(&r)]);
             let ctx = derive_add(r, actor, t);
             let cs = sx(&ctx);
-            let op = s.add(m, ctx);
+            let op = if foreign(m + ctx.dot.counter) { Orswot::<u64, A>::new().add(m, ctx) } else { s.add(m, ctx) };
             t.call("orswot.add", &[m.to_string(), cs, sx(&op)]);
             op
         }
@@ -632,7 +644,7 @@ fn orswot_edit(s: &Orswot<u64, A>, actor: A, a: &mut Args, t: &mut Out, pre: &st
             t.call(&format!("{}orswot.read", pre), &[sx(s), sx(&r)]);
             let ctx = derive_add(r, actor, t);
             let cs = sx(&ctx);
-            let op = s.add_all(ms.clone(), ctx);
+            let op = if foreign(ms.len() as u64 + ctx.dot.counter) { Orswot::<u64, A>::new().add_all(ms.clone(), ctx) } else { s.add_all(ms.clone(), ctx) };
             t.call("orswot.add_all", &[sx(&ms), cs, sx(&op)]);
             op
         }
@@ -641,7 +653,7 @@ fn orswot_edit(s: &Orswot<u64, A>, actor: A, a: &mut Args, t: &mut Out, pre: &st
             t.call(&format!("{}orswot.contains", pre), &[sx(s), m.to_string(), sx(&r)]);
             let ctx = derive_rm(r, t);
             let cs = sx(&ctx);
-            let op = s.rm(m, ctx);
+            let op = if foreign(m + csum(&ctx.clock)) { Orswot::<u64, A>::new().rm(m, ctx) } else { s.rm(m, ctx) };
             t.call("orswot.rm", &[m.to_string(), cs, sx(&op)]);
             op
         }
@@ -652,7 +664,7 @@ fn orswot_edit(s: &Orswot<u64, A>, actor: A, a: &mut Args, t: &mut Out, pre: &st
             ms.sort();
             let ctx = derive_rm(r, t);
             let cs = sx(&ctx);
-            let op = s.rm_all(ms.clone(), ctx);
+            let op = if foreign(csum(&ctx.clock)) { Orswot::<u64, A>::new().rm_all(ms.clone(), ctx) } else { s.rm_all(ms.clone(), ctx) };
             t.call("orswot.rm_all", &[sx(&ms), cs, sx(&op)]);
             op
         }
@@ -661,7 +673,7 @@ fn orswot_edit(s: &Orswot<u64, A>, actor: A, a: &mut Args, t: &mut Out, pre: &st
             t.call(&format!("{}orswot.read_ctx", pre), &[sx(s), sx(&r)]);
             let ctx = derive_rm(r, t);
             let cs = sx(&ctx);
-            let op = s.rm(m, ctx);
+            let op = if foreign(m + csum(&ctx.clock)) { Orswot::<u64, A>::new().rm(m, ctx) } else { s.rm(m, ctx) };
             t.call("orswot.rm", &[m.to_string(), cs, sx(&op)]);
             op
         }
@@ -775,7 +787,7 @@ fn mvreg_edit(s: &MVReg<u64, A>, actor: A, a: &mut Args, t: &mut Out, pre: &str)
         derive_add(r, actor, t)
     };
     let cs = sx(&ctx);
-    let op = s.write(v, ctx);
+    let op = if foreign(v + ctx.dot.counter) { MVReg::<u64, A>::new().write(v, ctx) } else { s.write(v, ctx) };
     t.call("mvreg.write", &[v.to_string(), cs, sx(&op)]);
     op
 }
@@ -897,7 +909,7 @@ macro_rules! map_sut {
                         t.call(concat!($name, ".get"), &[sx(self), k.to_string(), sx(&r)]);
                         let ctx = derive_rm(r, t);
                         let cs = sx(&ctx);
-                        let op = self.rm(k, ctx);
+                        let op = if foreign(k + csum(&ctx.clock)) { Self::new().rm(k, ctx) } else { self.rm(k, ctx) };
                         t.call(concat!($name, ".rm"), &[k.to_string(), cs, sx(&op)]);
                         Some(op)
                     }
@@ -906,7 +918,7 @@ macro_rules! map_sut {
                         t.call(concat!($name, ".read_ctx"), &[sx(self), sx(&r)]);
                         let ctx = derive_rm(r, t);
                         let cs = sx(&ctx);
-                        let op = self.rm(k, ctx);
+                        let op = if foreign(k + csum(&ctx.clock)) { Self::new().rm(k, ctx) } else { self.rm(k, ctx) };
                         t.call(concat!($name, ".rm"), &[k.to_string(), cs, sx(&op)]);
                         Some(op)
                     }
@@ -1033,7 +1045,7 @@ impl MapInfo for MapMO {
 fn leaf_mv(v: &MVReg<u64, A>, c: AddCtx<A>, _actor: A, a: &mut Args, t: &mut Out) -> mvreg::Op<u64, A> {
     let val = a.below(4);
     let cs = sx(&c);
-    let op = v.write(val, c);
+    let op = if foreign(val + c.dot.counter) { MVReg::<u64, A>::new().write(val, c) } else { v.write(val, c) };
     t.call("mvreg.write", &[val.to_string(), cs, sx(&op)]);
     op
 }
@@ -1042,7 +1054,7 @@ fn leaf_or(v: &Orswot<u64, A>, c: AddCtx<A>, _actor: A, a: &mut Args, t: &mut Ou
     match a.below(4) {
         0..=1 => {
             let cs = sx(&c);
-            let op = v.add(m, c);
+            let op = if foreign(m + c.dot.counter) { Orswot::<u64, A>::new().add(m, c) } else { v.add(m, c) };
             t.call("orswot.add", &[m.to_string(), cs, sx(&op)]);
             op
         }
@@ -1501,7 +1513,7 @@ impl Sut for MR {
             1 => heads.iter().take(1).cloned().collect(),
             _ => heads,
         };
-        let op = self.write(val.clone(), children.clone());
+        let op = if foreign(x) { MerkleReg::new().write(val.clone(), children.clone()) } else { self.write(val.clone(), children.clone()) };
         t.call("merkle.write", &[sx(&val), sx(&children), sx(&op), sx(&op.hash())]);
         Some(op)
     }
